@@ -26,6 +26,11 @@ def get_readonly(kind, how, path):
         h = cls(path, accessmode='r+')
         h.accessmode = 'r'
         return h
+    if how == 'md-direct':
+        h = cls(path)
+        h.metadata.accessmode = 'r+'       # the metadata object's own (public) mode attribute
+        h.accessmode = 'r'
+        return h
     if how == 'toggled':
         h = cls(path)
         h.accessmode = 'r+'
@@ -164,6 +169,10 @@ def replay_readonly(cex, d):
         elif how == 'assigned':
             h = cls(p, accessmode='r+')
             h.accessmode = 'r'
+        elif how == 'md-direct':
+            h = cls(p)
+            h.metadata.accessmode = 'r+'
+            h.accessmode = 'r'
         else:
             h = cls(p)
             h.accessmode = 'r+'
@@ -224,14 +233,14 @@ def replay_readonly(cex, d):
 def obligations(tier):
     thorough = tier == 'thorough'
     T = 600 if thorough else 150
-    hows = ['default', 'explicit', 'assigned', 'toggled']
+    hows = ['default', 'explicit', 'assigned', 'toggled', 'md-direct']
     obs = []
     asplits = []
     for i, mut in enumerate(ARRAY_MUTATORS):
         for wm in (True, False):
             if not wm and mut in ('md-pop', 'md-popitem', 'md-del'):
                 continue
-            for how in (hows if thorough else [hows[(i + (1 if wm else 0)) % 4], 'assigned']):
+            for how in (hows if thorough else [hows[(i + (1 if wm else 0)) % 4], 'assigned'] + (['md-direct'] if mut.startswith('md-') else [])):
                 for at in ([(), (2,)] if thorough else [()] if i % 2 else [(2,)]):
                     asplits.append(dict(kind='array', mut=mut, how=how, withmeta=wm, atom=at,
                                         _must=('end', 'refused') if mut == 'delete' else ('end', 'refused', 'succeeded')))
@@ -245,7 +254,7 @@ def obligations(tier):
         for wm in (True, False):
             if not wm and mut in ('md-pop', 'md-popitem', 'md-del'):
                 continue
-            for how in (hows if thorough else [hows[(i + (2 if wm else 0)) % 4]]):
+            for how in (hows if thorough else [hows[(i + (2 if wm else 0)) % 4]] + (['md-direct'] if mut.startswith('md-') else [])):
                 for K in ((1, 2) if thorough else (2,)):
                     rsplits.append(dict(kind='ragged', mut=mut, how=how, withmeta=wm, atom=() if i % 2 else (2,), K=K,
                                         _must=('end', 'refused') if mut == 'delete' else ('end', 'refused', 'succeeded')))
